@@ -1,39 +1,161 @@
----- MODULE IdleAccept ----
-EXTENDS Naturals, FiniteSets, TLC
-CONSTANTS MaxConns, FixClearOnAccept   \* intended: accepting a connection clears shutdown_requested (or re-checks before exit)
-VARIABLES pending,      \* connections waiting in the kernel backlog
-          accepted,     \* total accepted so far
-          connCount, serving, \* conn_count and the set of connection ids being served
-          timerArmed, shutdownReq, loop, \* loop \in {"accepting","exited"}
-          arrived, abandoned
-vars == <<pending, accepted, connCount, serving, timerArmed, shutdownReq, loop, arrived, abandoned>>
-Init == /\ pending = 0 /\ accepted = 0 /\ connCount = 0 /\ serving = {} /\ timerArmed = TRUE
-        /\ shutdownReq = FALSE /\ loop = "accepting" /\ arrived = 0 /\ abandoned = FALSE
-\* a client connects (kernel completes the handshake while the listener is open)
-Arrive == /\ loop = "accepting" /\ arrived < MaxConns /\ pending' = pending + 1 /\ arrived' = arrived + 1
-          /\ UNCHANGED <<accepted, connCount, serving, timerArmed, shutdownReq, loop, abandoned>>
-\* timer thread: _close_listener_if_idle
-TimerFire == /\ timerArmed /\ timerArmed' = FALSE
-             /\ shutdownReq' = (IF connCount = 0 THEN TRUE ELSE shutdownReq)
-             /\ UNCHANGED <<pending, accepted, connCount, serving, loop, arrived, abandoned>>
-\* accept loop: accept() returns a connection
-Accept == /\ loop = "accepting" /\ pending > 0
-          /\ pending' = pending - 1 /\ accepted' = accepted + 1
-          /\ connCount' = connCount + 1 /\ serving' = serving \cup {accepted + 1}
-          /\ timerArmed' = FALSE     \* _cancel_timer_locked
-          /\ shutdownReq' = (IF FixClearOnAccept THEN FALSE ELSE shutdownReq)
-          /\ UNCHANGED <<loop, arrived, abandoned>>
-\* accept loop: accept() times out with nothing pending
-AcceptTimeout == /\ loop = "accepting" /\ pending = 0
-                 /\ IF shutdownReq THEN /\ loop' = "exited"
-                                        /\ abandoned' = (serving # {})   \* listener closed, process exits under live connections
-                                   ELSE UNCHANGED <<loop, abandoned>>
-                 /\ UNCHANGED <<pending, accepted, connCount, serving, timerArmed, shutdownReq, arrived>>
-\* a connection ends: conn_count -= 1; re-arm idle timer when it reaches zero
-ConnEnd(c) == /\ c \in serving /\ serving' = serving \ {c} /\ connCount' = connCount - 1
-              /\ timerArmed' = (IF connCount - 1 = 0 THEN TRUE ELSE timerArmed)
-              /\ UNCHANGED <<pending, accepted, shutdownReq, loop, arrived, abandoned>>
-Next == Arrive \/ TimerFire \/ Accept \/ AcceptTimeout \/ (\E c \in serving : ConnEnd(c))
+---------------------------------- MODULE IdleAccept ----------------------------------
+(* C33 (second sentence) -- the threaded socket worker's accept loop and its idle shutdown.
+
+   Code-shaped model of vgi_rpc/rpc/_transport.py:_serve_socket_threaded.  One action = one real thread
+   running from one park point of the deterministic scheduler to the next (park points: every acquire of
+   state_lock, the blocking accept(), the body of server.serve(), thread start).  state_lock is never held
+   at a park point (its critical sections contain no park point), so no lock variable is needed.
+
+     loop thread     start -LStart-> initlock -LInit-> accept
+                     accept -LAccept-> lock1 -LLock1-> lock2 -LLock2-> accept        (a connection)
+                     accept -LTimeout-> check -LCheck-> accept | final -LFinal-> exited   (0.5 s accept timeout)
+     handler c       start -HStart-> serving -HServeEnd-> fin -HFin-> done
+     timer t         armed -TFire-> fired -TRun-> done          cancel(): armed -> cancelled, otherwise no effect
+                     (threading.Timer: cancel() after the wait has elapsed does not stop the callback)
+     environment     Arrive (a client connects; the kernel queues it while the listener is open)
+
+   Intended design vs. code as shipped:
+     FixClearOnAccept   accepting a connection clears shutdown_requested (same critical section as conn_count += 1)
+     FixStaleTimer      a timer callback that is no longer the armed timer (cancelled after its wait elapsed, or
+                        superseded) does nothing
+   With both TRUE the clauses below hold; the shipped code has both FALSE.                                     *)
+EXTENDS Naturals, FiniteSets, Sequences, TLC
+
+CONSTANTS MaxConns,          \* number of client connections that may arrive
+          FixClearOnAccept, FixStaleTimer
+
+MaxTimers == MaxConns + 1    \* one startup-grace timer + one re-arm per connection end (structural bound)
+Conns == 1..MaxConns
+Timers == 1..MaxTimers
+
+VARIABLES arrived, accepted,      \* connections that connected / that accept() returned (ids are 1..arrived)
+          lpc,                    \* accept-loop thread
+          hpc,                    \* handler thread per connection: "none" until accepted
+          connCount, shutdownReq, \* closure variables conn_count, shutdown_requested
+          timer,                  \* closure variable `timer`: 0 = None, else timer id
+          tst, tkind, nTimers,    \* timer objects: state, interval class ("grace"|"idle"|"short"), how many created
+          quiet,                  \* ghost: quiet[t] <=> no connection was accepted since t was armed
+          idleElapsed,            \* ghost: a full idle interval elapsed with zero connections and none accepted since
+          late,                   \* ghost: connections accepted while shutdown_requested was already set
+          exitServing, exitNotIdle, exitLate   \* ghost: evaluated at the moment the loop stops accepting
+vars == <<arrived, accepted, lpc, hpc, connCount, shutdownReq, timer, tst, tkind, nTimers, quiet, idleElapsed,
+          late, exitServing, exitNotIdle, exitLate>>
+
+Init == /\ arrived = 0 /\ accepted = 0 /\ lpc = "start" /\ hpc = [c \in Conns |-> "none"]
+        /\ connCount = 0 /\ shutdownReq = FALSE /\ timer = 0
+        /\ tst = [t \in Timers |-> "none"] /\ tkind = [t \in Timers |-> "none"] /\ nTimers = 0
+        /\ quiet = [t \in Timers |-> FALSE] /\ idleElapsed = FALSE /\ late = {}
+        /\ exitServing = FALSE /\ exitNotIdle = FALSE /\ exitLate = FALSE
+
+Ghost == <<quiet, idleElapsed, late, exitServing, exitNotIdle, exitLate>>
+\* accepted and not yet finished being served (a connection accept() just returned has no handler thread yet)
+Live == {c \in Conns : hpc[c] \in {"start", "serving"}} \cup (IF lpc \in {"lock1", "lock2"} THEN {accepted} ELSE {})
+ListenerOpen == lpc # "exited"      \* the caller closes the listening socket after the loop function returns
+
+\* ---- helpers for the closure functions (always called with state_lock held) ----
+Cancelled(ts, t) == IF t # 0 /\ ts[t] = "armed" THEN [ts EXCEPT ![t] = "cancelled"] ELSE ts
+\* _arm_timer_locked(kind): cancel the referenced timer, create + start a new one
+Arm(kind) == /\ nTimers < MaxTimers
+             /\ nTimers' = nTimers + 1
+             /\ tst' = [Cancelled(tst, timer) EXCEPT ![nTimers + 1] = "armed"]
+             /\ tkind' = [tkind EXCEPT ![nTimers + 1] = kind]
+             /\ timer' = nTimers + 1
+             /\ quiet' = [quiet EXCEPT ![nTimers + 1] = (Live = {})]     \* an idle period starts only with nothing connected
+\* _cancel_timer_locked
+CancelTimer == /\ tst' = Cancelled(tst, timer) /\ timer' = 0 /\ UNCHANGED <<nTimers, tkind>>
+
+\* ---- environment ----
+Arrive == /\ ListenerOpen /\ arrived < MaxConns /\ arrived' = arrived + 1
+          /\ UNCHANGED <<accepted, lpc, hpc, connCount, shutdownReq, timer, tst, tkind, nTimers, Ghost>>
+
+\* ---- accept loop ----
+LStart == /\ lpc = "start" /\ lpc' = "initlock"
+          /\ UNCHANGED <<arrived, accepted, hpc, connCount, shutdownReq, timer, tst, tkind, nTimers, Ghost>>
+\* kind is what the code passed to Timer(): "grace" = max(idle_timeout, 60), "idle" = idle_timeout, "short" < idle_timeout
+LInit(kind) == /\ lpc = "initlock" /\ lpc' = "accept" /\ Arm(kind)
+               /\ UNCHANGED <<arrived, accepted, hpc, connCount, shutdownReq, idleElapsed, late, exitServing,
+                              exitNotIdle, exitLate>>
+\* accept() returns the oldest queued connection
+LAccept == /\ lpc = "accept" /\ accepted < arrived
+           /\ accepted' = accepted + 1 /\ lpc' = "lock1"
+           /\ quiet' = [t \in Timers |-> FALSE] /\ idleElapsed' = FALSE
+           /\ late' = IF shutdownReq THEN late \cup {accepted + 1} ELSE late
+           /\ UNCHANGED <<arrived, hpc, connCount, shutdownReq, timer, tst, tkind, nTimers, exitServing,
+                          exitNotIdle, exitLate>>
+\* conn_count += 1; _cancel_timer_locked()        [intended: also shutdown_requested = False]
+LLock1(clear) == /\ lpc = "lock1" /\ lpc' = "lock2"
+                 /\ connCount' = connCount + 1 /\ CancelTimer
+                 /\ shutdownReq' = IF clear THEN FALSE ELSE shutdownReq
+                 /\ UNCHANGED <<arrived, accepted, hpc, Ghost>>
+\* active.add(t); t.start()   -- the handler thread exists from here on
+LLock2 == /\ lpc = "lock2" /\ lpc' = "accept"
+          /\ hpc' = [hpc EXCEPT ![accepted] = "start"]
+          /\ UNCHANGED <<arrived, accepted, connCount, shutdownReq, timer, tst, tkind, nTimers, Ghost>>
+\* accept() raises TimeoutError: nothing was queued for 0.5 s
+LTimeout == /\ lpc = "accept" /\ accepted = arrived /\ lpc' = "check"
+            /\ UNCHANGED <<arrived, accepted, hpc, connCount, shutdownReq, timer, tst, tkind, nTimers, Ghost>>
+\* with state_lock: if shutdown_requested: break      -- the moment the worker stops accepting
+LCheck == /\ lpc = "check"
+          /\ IF shutdownReq
+             THEN /\ lpc' = "final"
+                  /\ exitServing' = (Live # {})
+                  /\ exitNotIdle' = ~idleElapsed
+                  /\ exitLate' = (late \cap Live # {})
+             ELSE /\ lpc' = "accept" /\ UNCHANGED <<exitServing, exitNotIdle, exitLate>>
+          /\ UNCHANGED <<arrived, accepted, hpc, connCount, shutdownReq, timer, tst, tkind, nTimers, quiet,
+                         idleElapsed, late>>
+\* finally: _cancel_timer_locked(); join the handler threads (bounded wait), return
+LFinal == /\ lpc = "final" /\ lpc' = "exited" /\ CancelTimer
+          /\ UNCHANGED <<arrived, accepted, hpc, connCount, shutdownReq, Ghost>>
+
+\* ---- connection handler threads ----
+HStart(c) == /\ hpc[c] = "start" /\ hpc' = [hpc EXCEPT ![c] = "serving"]
+             /\ UNCHANGED <<arrived, accepted, lpc, connCount, shutdownReq, timer, tst, tkind, nTimers, Ghost>>
+HServeEnd(c) == /\ hpc[c] = "serving" /\ hpc' = [hpc EXCEPT ![c] = "fin"]
+                /\ UNCHANGED <<arrived, accepted, lpc, connCount, shutdownReq, timer, tst, tkind, nTimers, Ghost>>
+\* conn_count -= 1; if conn_count == 0: _arm_timer_locked(idle_timeout)
+HFin(c, kind) == /\ hpc[c] = "fin" /\ hpc' = [hpc EXCEPT ![c] = "done"]
+                 /\ connCount' = connCount - 1
+                 /\ IF connCount - 1 = 0 THEN Arm(kind) ELSE UNCHANGED <<timer, tst, tkind, nTimers, quiet>>
+                 /\ UNCHANGED <<arrived, accepted, lpc, shutdownReq, idleElapsed, late, exitServing, exitNotIdle,
+                                exitLate>>
+
+\* ---- idle timer threads ----
+\* the timer's wait elapsed (not cancelled in time): its thread is about to run _close_listener_if_idle
+TFire(t) == /\ tst[t] = "armed" /\ tst' = [tst EXCEPT ![t] = "fired"]
+            /\ idleElapsed' = (idleElapsed \/ (quiet[t] /\ tkind[t] # "short"))
+            /\ UNCHANGED <<arrived, accepted, lpc, hpc, connCount, shutdownReq, timer, tkind, nTimers, quiet, late,
+                           exitServing, exitNotIdle, exitLate>>
+\* _close_listener_if_idle:  timer = None; if conn_count != 0: return; shutdown_requested = True
+\*   guard = TRUE: the intended design ignores a callback whose timer is no longer the armed one
+TRun(t, guard) == /\ tst[t] = "fired" /\ tst' = [tst EXCEPT ![t] = "done"]
+                  /\ IF guard /\ timer # t
+                     THEN UNCHANGED <<timer, shutdownReq>>
+                     ELSE /\ timer' = 0
+                          /\ shutdownReq' = IF connCount = 0 THEN TRUE ELSE shutdownReq
+                  /\ UNCHANGED <<arrived, accepted, lpc, hpc, connCount, tkind, nTimers, Ghost>>
+
+Next == \/ Arrive \/ LStart \/ LInit("grace") \/ LAccept \/ LLock1(FixClearOnAccept) \/ LLock2 \/ LTimeout
+        \/ LCheck \/ LFinal
+        \/ \E c \in Conns : HStart(c) \/ HServeEnd(c) \/ HFin(c, "idle")
+        \/ \E t \in Timers : TFire(t) \/ TRun(t, FixStaleTimer)
 Spec == Init /\ [][Next]_vars
-NeverAbandon == ~abandoned
-====
+
+\* ---------------------------------------------------------------- property clauses (C33, second sentence)
+\* the worker never stops accepting while a connection it accepted is (about to be) served
+NoExitWhileServing == ~exitServing
+\* ... and only after a full idle_timeout / startup grace elapsed with zero connections and none accepted since
+ExitOnlyAfterIdlePeriod == ~exitNotIdle
+\* no connection accepted after shutdown_requested was set is abandoned
+NoLateAcceptAbandoned == ~exitLate
+
+\* ---------------------------------------------------------------- model sanity
+TypeOK == /\ arrived \in 0..MaxConns /\ accepted \in 0..arrived /\ connCount \in 0..MaxConns
+          /\ timer \in 0..MaxTimers /\ nTimers \in 0..MaxTimers
+          /\ lpc \in {"start", "initlock", "accept", "lock1", "lock2", "check", "final", "exited"}
+CountSane == connCount = Cardinality({c \in Conns : hpc[c] \in {"start", "serving", "fin"}})
+                         + (IF lpc = "lock2" THEN 1 ELSE 0)
+\* vacuity guards (expected to be *violated*: the states they exclude must be reachable)
+NeverExits == lpc # "exited"
+NeverLate == late = {}
+=========================================================================================
